@@ -118,8 +118,8 @@ func (t *Tracker) Init(w *World) {
 	}
 }
 
-func (t *Tracker) AfterBegin(w *World)             { t.Applied = nil; t.step(w, "A") }
-func (t *Tracker) AfterTx(w *World, r *TxResult)   { t.step(w, "B") }
+func (t *Tracker) AfterBegin(w *World)           { t.Applied = nil; t.step(w, "A") }
+func (t *Tracker) AfterTx(w *World, r *TxResult) { t.step(w, "B") }
 func (t *Tracker) AfterEnd(w *World) {
 	t.PreEnd = t.Cur
 	t.step(w, "C")
